@@ -127,6 +127,47 @@ theorem readyGate_dir (s : St β) (a w : Bool) : (readyGate s a w).1.dir = s.dir
   · unfold isReady
     exact calcProgress_dir s
 
+/-- the linear (enumeration-order) results of reaping a fully and correctly grown crop are `f` mapped over the
+settings, for every batch configuration and every permutation the shuffle may be -/
+theorem c04_reapLinear_full (P : Perms) (f : List Nat → β) (nl : β → β) (s : St β) (d : Dir β) (info : Info)
+    (c : Batch.Cfg) (o : ReapOpts)
+    (hd : s.dir = some d) (hinfo : d.info = some info)
+    (hnb : info.nb = (sownBatches P c info.sweep info.shuffle).length)
+    (hr : ∀ j (hj : j < (sownBatches P c info.sweep info.shuffle).length),
+        lookup d.results (j + 1) = some (.good ((sownBatches P c info.sweep info.shuffle)[j].map f)))
+    (hperm : info.shuffle = 0 ∨ P info.shuffle info.sweep.locs.length ~ List.range info.sweep.locs.length)
+    (hai : o.allowIncomplete = false)
+    (hgate : (readyGate s false o.wait).2 = true) :
+    reapLinear P nl s o = .ok ((readyGate s false o.wait).1, info, info.sweep.locs.map f) := by
+  have hdir := readyGate_dir s false o.wait
+  have hcover := c04_batches_cover P c info.sweep info.shuffle hperm
+  unfold sownBatches at hcover hnb hr
+  have hstream := c04_stream_full f (readyGate s false o.wait).1.obj d _ (if o.wait then none else none)
+    (Batch.c07_nonempty c _) hr
+  rw [← hnb] at hstream
+  unfold reapLinear
+  simp only [hai, hgate, Bool.not_true, Bool.false_eq_true, if_false, hdir, hd, hinfo]
+  have hnone : (if o.wait = true then (none : Option β) else none) = none := by split <;> rfl
+  rw [hnone] at hstream
+  simp only [hnone, hstream]
+  have hlen : ((Batch.sow c (sowStream P info.sweep info.shuffle)).flatten.map f).length = info.sweep.locs.length := by
+    rw [List.length_map, hcover.1]; exact hcover.2.length_eq
+  unfold reorder
+  simp only [hlen, Nat.lt_irrefl, if_false]
+  rw [hcover.1]
+  by_cases h0 : info.shuffle = 0
+  · simp only [h0, if_true]
+    simp [sowStream, seedStrategy, runLinear]
+  · simp only [h0, if_false]
+    rcases hperm with h | h
+    · exact absurd h h0
+    · have hs : sowStream P info.sweep info.shuffle = applyPerm (P info.shuffle info.sweep.locs.length) info.sweep.locs [] := by
+        simp [sowStream, seedStrategy, h0, runLinear]
+      rw [hs]
+      have := runShuffled_eq f info.sweep.locs (P info.shuffle info.sweep.locs.length) [] h
+      unfold runShuffled at this
+      rw [this]
+
 /-- **reap = direct run.**  A crop whose info file describes sweep `info.sweep` under shuffle seed `info.shuffle`, whose
 result files hold `f` mapped over the batch files written by the Sower for that stream, reaps to exactly the nested
 output of a direct sequential `combo_runner_core` on the same sweep — for every batch configuration and every
@@ -146,36 +187,7 @@ theorem c04_reap_eq_direct (P : Perms) (f : List Nat → β) (nl : β → β) (s
       s'.dir = (if cleanUpResolved o.cleanUp false then none else some d) := by
   obtain ⟨r, hcore, _, hflat, hnested⟩ := core_ok f nl info.sweep .seq hov trivial
   have hdir := readyGate_dir s false o.wait
-  have hcover := c04_batches_cover P c info.sweep info.shuffle hperm
-  unfold sownBatches at hcover hnb hr
-  have hstream := c04_stream_full f (readyGate s false o.wait).1.obj d _ (if o.wait then none else none)
-    (Batch.c07_nonempty c _) hr
-  rw [← hnb] at hstream
-  -- the linear results
-  have hlin : reapLinear P nl s o = .ok ((readyGate s false o.wait).1, info, info.sweep.locs.map f) := by
-    unfold reapLinear
-    simp only [hai, hgate, Bool.not_true, Bool.false_eq_true, if_false, hdir, hd, hinfo]
-    have hnone : (if o.wait = true then (none : Option β) else none) = none := by split <;> rfl
-    rw [hnone] at hstream
-    simp only [hnone, hstream]
-    -- reorder
-    have hlen : ((Batch.sow c (sowStream P info.sweep info.shuffle)).flatten.map f).length = info.sweep.locs.length := by
-      rw [List.length_map, hcover.1]; exact hcover.2.length_eq
-    unfold reorder
-    simp only [hlen, Nat.lt_irrefl, if_false]
-    rw [hcover.1]
-    by_cases h0 : info.shuffle = 0
-    · simp only [h0, if_true]
-      simp [sowStream, seedStrategy, runLinear]
-    · simp only [h0, if_false]
-      rcases hperm with h | h
-      · exact absurd h h0
-      · have hs : sowStream P info.sweep info.shuffle = applyPerm (P info.shuffle info.sweep.locs.length) info.sweep.locs [] := by
-          simp [sowStream, seedStrategy, h0, runLinear]
-        rw [hs]
-        have := runShuffled_eq f info.sweep.locs (P info.shuffle info.sweep.locs.length) [] h
-        unfold runShuffled at this
-        rw [this]
+  have hlin := c04_reapLinear_full P f nl s d info c o hd hinfo hnb hr hperm hai hgate
   cases hl : info.sweep.locs with
   | nil => exact absurd hl hne
   | cons l rest =>
